@@ -271,3 +271,73 @@ func CheckMinVV(r *Run) []Problem {
 	}
 	return ps
 }
+
+// CheckMinVVExact (C11: a detached or deactivated client no longer holds back
+// garbage collection): the vector of every change-pull response equals the
+// minimum over the requester's vector and the vectors last reported by the
+// clients that are attached at that moment, by the harness's own bookkeeping.
+func CheckMinVVExact(r *Run) []Problem {
+	var ps []Problem
+	rows := map[string]map[string]int64{}
+	for i, t := range r.Trace {
+		me := t.Client.String()
+		switch t.Kind {
+		case "deactivate":
+			if t.Err == nil {
+				delete(rows, me)
+			}
+			continue
+		case "activate":
+			continue
+		}
+		if t.Req == nil || t.Err != nil || t.Resp == nil {
+			continue
+		}
+		if t.Kind == "detach" || t.Kind == "remove" {
+			delete(rows, me)
+			continue
+		}
+		if t.DisableGC {
+			continue
+		}
+		p, err := fromPack(t)
+		if err != nil {
+			continue
+		}
+		rows[me] = p
+		if len(t.Resp.Snapshot) > 0 || t.PushOnly {
+			continue
+		}
+		// expected minimum
+		keys := map[string]bool{}
+		for _, row := range rows {
+			for k := range row {
+				keys[k] = true
+			}
+		}
+		for k := range keys {
+			min := int64(1) << 62
+			for _, row := range rows {
+				v, ok := row[k]
+				if !ok {
+					min = 0
+					break
+				}
+				if v < min {
+					min = v
+				}
+			}
+			got := int64(0)
+			for a, x := range t.Resp.VersionVector {
+				if a.String() == k {
+					got = x
+				}
+			}
+			if got != min {
+				ps = append(ps, Problem{Kind: "minvv-not-minimum", Step: i, Detail: fmt.Sprintf("call %d (%s) by %s: response vector has %s=%d, the minimum over the %d attached clients' reports is %d", i, t.Kind, me, k, got, len(rows), min)})
+				return ps
+			}
+		}
+	}
+	return ps
+}
